@@ -213,6 +213,7 @@ Proof.
   unfold measure_comp. cbn [nq vec]. rewrite Hargs. fold aq. fold ps. rewrite Htot.
   cbn [sltb s0 rops]. rewrite (proj2 (Rltb_true 0 (nv v)) Hvpos). cbn [negb]. fold nps. fold k.
   rewrite (proj2 (Rltb_true 0 _) Hproj).
+  match goal with |- context [if ?b then Ok (mkState n ?c) else _] => destruct b end; [reflexivity|].
   rewrite (state_new_unit n).
   - reflexivity.
   - rewrite map_length, project_length. exact Hl.
